@@ -24,6 +24,8 @@ type Result struct {
 	Outcomes    map[string]int
 	Failure     *Failure
 	RaceChecked bool
+	SampleTrace []string // the scheduling points of the last execution, as an example of what was explored
+	SampleSched []int
 }
 
 // run executes body once under the given decision prefix.
@@ -109,6 +111,7 @@ func ExploreUntil(bound, maxExec, maxSteps int, deadline time.Time, body func() 
 			return res
 		}
 		res.Outcomes[out]++
+		res.SampleTrace, res.SampleSched = s.trace, s.choices
 		if len(s.choices) < len(prefix) {
 			res.Failure = &Failure{What: fmt.Sprintf("HARNESS: execution consumed %d decisions, fewer than its prefix %v (nondeterministic body)", len(s.choices), prefix), Schedule: prefix, Trace: s.trace}
 			res.Complete = false
